@@ -19,22 +19,50 @@ STREAM_WORDS = ["UDJFVLUDHZ", "JDUUFLHVDZ", "LFUJDVUZHD"]
 C14_SETS = [("SMA2",), ("TR",), ("ATR2",), ("HMA4",), ("STDEV2",), ("STOCH222",), ("TSI2",), ("AROON2",), ("MACD232",), ("ADX22",),
             ("BBANDS2",), ("ST2",), ("RSI2",), ("KC2",), ("VWAP",), ("OBV",), ("COUNTvol",), ("highestbar3",), ("WMA2",), ("EMA2",),
             ("RMA2",), ("VWMA2",), ("DON2",), ("HL2",), ("HLA",), ("STDEVTHRES2",), ("ROC2",), ("crossover2",),
-            ("SMA2", "EMA2"), ("RSI2", "MACD232"), ("ST2", "TSI2"), ("STOCH222", "ADX22"), ("HMA4", "BBANDS2")]
+            ("SMA2", "EMA2"), ("RSI2", "MACD232"), ("ST2", "TSI2"), ("STOCH222", "ADX22"), ("HMA4", "BBANDS2"),
+            ("RSI2@T2",), ("STOCH222@T2", "SMA2"), ("ATR2@T2", "EMA2@T2"), ("MACD232@T2",), ("ST2@T2", "OBV")]
 EXTRA = "EMA3"
 
 
-class St:
-    __slots__ = ("hx", "pos", "reg", "clean")
+def mk(label):
+    """'RSI2' or 'RSI2@T2' (member on its own timeframe)."""
+    base, _, tf = label.partition("@")
+    return make(BY_LABEL[base], **({"timeframe": tf} if tf else {}))
 
-    def __init__(self, hx, pos, reg, clean):
+
+def nm_(label):
+    return mk(label).name
+
+
+class St:
+    __slots__ = ("hx", "pos", "reg", "clean", "removed")
+
+    def __init__(self, hx, pos, reg, clean, removed=None):
         self.hx, self.pos, self.reg, self.clean = hx, pos, reg, clean
+        self.removed = removed or {}  # name -> (label, the removed Indicator object), so that the SAME object can be re-added
 
     def fork(self):
-        return St(copy.deepcopy(self.hx), self.pos, tuple(self.reg), self.clean)
+        hx, removed = copy.deepcopy((self.hx, self.removed))
+        return St(hx, self.pos, tuple(self.reg), self.clean, removed)
 
 
 def names(reg):
-    return [make(BY_LABEL[l]).name for l in reg]
+    return [nm_(l) for l in reg]
+
+
+def snap_eq(a, b):
+    """Snapshots agree: managers present in both are identical; a manager present on one side only (a timeframe whose
+    last member was removed) must not carry any reading."""
+    da, db = dict(a), dict(b)
+    for k in set(da) | set(db):
+        if k in da and k in db:
+            if da[k] != db[k]:
+                return False
+        else:
+            for c in (da[k] if k in da else db[k]):
+                if c[6] or c[7]:
+                    return False
+    return True
 
 
 def snapshot(hx):
@@ -42,7 +70,9 @@ def snapshot(hx):
 
 
 def canon_full(st):
+    # removed-but-kept objects are part of the state: their cursor fields (e.g. _initialised) decide what a re-add does
     return (snapshot(st.hx), tuple(sorted(st.hx._indicators)), st.pos,
+            tuple(sorted((k, lab, _tree(obj), canon_candles(obj.candles)) for k, (lab, obj) in st.removed.items())),
             tuple(sorted((k, _tree(v)) for k, v in st.hx._indicators.items())))
 
 
@@ -55,7 +85,7 @@ def twin_snapshot(reg, raw, pos):
     r = _twin_cache.get(key)
     if r is None:
         from hexital import Hexital
-        hx = Hexital("t", fresh(raw[:pos]), [make(BY_LABEL[l]) for l in reg])
+        hx = Hexital("t", fresh(raw[:pos]), [mk(l) for l in reg])
         hx.calculate()
         r = _twin_cache[key] = snapshot(hx)
     return r
@@ -64,9 +94,9 @@ def twin_snapshot(reg, raw, pos):
 def initial_states(reg, raw):
     from hexital import Hexital
     out = []
-    out.append(("empty", St(Hexital("h", [], [make(BY_LABEL[l]) for l in reg]), 0, tuple(reg), True)))
-    out.append(("preloaded", St(Hexital("h", fresh(raw[:4]), [make(BY_LABEL[l]) for l in reg]), 4, tuple(reg), False)))
-    h = Hexital("h", fresh(raw[:4]), [make(BY_LABEL[l]) for l in reg])
+    out.append(("empty", St(Hexital("h", [], [mk(l) for l in reg]), 0, tuple(reg), True)))
+    out.append(("preloaded", St(Hexital("h", fresh(raw[:4]), [mk(l) for l in reg]), 4, tuple(reg), False)))
+    h = Hexital("h", fresh(raw[:4]), [mk(l) for l in reg])
     h.calculate()
     out.append(("calculated", St(h, 4, tuple(reg), True)))
     return out
@@ -92,7 +122,9 @@ def enabled_ops(st, raw, prop, target=None):
             for i in (-1, -2, n - 1, n - 2):
                 ops.append(("calculate_index", t, i))
     for l in st.reg:
-        ops.append(("remove", make(BY_LABEL[l]).name))
+        ops.append(("remove", nm_(l)))
+    for name in sorted(st.removed):
+        ops.append(("readd", name))
     if EXTRA not in st.reg and len(st.reg) < 3:
         ops.append(("add", EXTRA))
     return ops
@@ -121,17 +153,25 @@ def apply(st, op, raw):
         else:
             hx.calculate_index(index=op[2])
     elif k == "remove":
+        obj = hx._indicators.get(op[1])
+        lab = next(l for l in st.reg if nm_(l) == op[1])
         hx.remove_indicator(op[1])
-        st.reg = tuple(l for l in st.reg if make(BY_LABEL[l]).name != op[1])
+        st.reg = tuple(l for l in st.reg if nm_(l) != op[1])
+        st.removed[op[1]] = (lab, obj)
+    elif k == "readd":
+        lab, obj = st.removed.pop(op[1])
+        hx.add_indicator(obj)  # the very object that was removed
+        st.reg = st.reg + (lab,)
+        st.clean = False
     elif k == "add":
-        hx.add_indicator(make(BY_LABEL[op[1]]))
+        hx.add_indicator(mk(op[1]))
         st.reg = st.reg + (op[1],)
         st.clean = False
     return st
 
 
 def kind_of(reg):
-    return "+".join(BY_LABEL[l].get("cls", BY_LABEL[l].get("analysis")) for l in reg)
+    return "+".join(BY_LABEL[l.partition("@")[0]].get("cls", BY_LABEL[l.partition("@")[0]].get("analysis")) + ("@tf" if "@" in l else "") for l in reg)
 
 
 def bfs(item):
@@ -157,7 +197,7 @@ def bfs(item):
         key = (label, pos)
         if key not in alone:
             from hexital import Hexital
-            ind = make(BY_LABEL[label])
+            ind = mk(label)
             h = Hexital("a", fresh(raw[:pos]), [ind])
             h.calculate()
             alone[key] = [cnum(x) for x in ind.as_list()]
@@ -173,7 +213,7 @@ def bfs(item):
             try:
                 with deadline(hz):
                     probe.hx.calculate()
-                ok = snapshot(probe.hx) == twin_snapshot(st.reg, raw, st.pos)
+                ok = snap_eq(snapshot(probe.hx), twin_snapshot(st.reg, raw, st.pos))
                 err = None
             except Exception as e:
                 ok, err = False, repr(e)
@@ -208,25 +248,25 @@ def bfs(item):
             bad = None
             if prop == "C14" and pre_clean:
                 k = op[0]
-                if k == "calculate" and post != pre_snap:
+                if k == "calculate" and not snap_eq(post, pre_snap):
                     bad = "calculate-not-idempotent"
-                elif k == "recalculate" and post != pre_snap:
+                elif k == "recalculate" and not snap_eq(post, pre_snap):
                     bad = "recalculate!=replaced"
-                elif k == "calculate_index" and post != pre_snap:
+                elif k == "calculate_index" and not snap_eq(post, pre_snap):
                     bad = "calculate_index-changed-readings" + ("-negative" if op[2] < 0 else "")
                 elif k in ("purge", "remove"):
-                    left = tuple(l for l in pre_reg if op[1] is not None and make(BY_LABEL[l]).name != op[1])
-                    if post != twin_snapshot(left, raw, st.pos):
+                    left = tuple(l for l in pre_reg if op[1] is not None and nm_(l) != op[1])
+                    if not snap_eq(post, twin_snapshot(left, raw, st.pos)):
                         bad = f"{k}-not-exactly-own-entries"
-                elif k == "append" and post != twin_snapshot(nxt.reg, raw, nxt.pos):
+                elif k == "append" and not snap_eq(post, twin_snapshot(nxt.reg, raw, nxt.pos)):
                     bad = "append!=batch"
-                elif k == "add" and post != pre_snap:
+                elif k in ("add", "readd") and not snap_eq(post, pre_snap):
                     bad = "add-changed-readings"
             if prop == "C13":
                 # every other registered indicator must read exactly what it reads alone
                 target = names(reg)[0]
                 for l in nxt.reg:
-                    nm = make(BY_LABEL[l]).name
+                    nm = nm_(l)
                     if nm == target or nm not in nxt.hx._indicators:
                         continue
                     got = [cnum(x) for x in nxt.hx.indicator(nm).as_list()]
@@ -280,27 +320,27 @@ def replay(case):
             st.hx.calculate()
         except Exception:
             return True
-        return snapshot(st.hx) != twin_snapshot(st.reg, raw, st.pos)
+        return not snap_eq(snapshot(st.hx), twin_snapshot(st.reg, raw, st.pos))
     if o.startswith("other-changed"):
         target = names(reg)[0]
         for l in st.reg:
-            nm = make(BY_LABEL[l]).name
+            nm = nm_(l)
             if nm == target:
                 continue
-            ind = make(BY_LABEL[l])
+            ind = mk(l)
             h = Hexital("a", fresh(raw[:st.pos]), [ind])
             h.calculate()
             if [cnum(x) for x in st.hx.indicator(nm).as_list()] != [cnum(x) for x in ind.as_list()]:
                 return True
         return False
     if o in ("calculate-not-idempotent", "recalculate!=replaced", "add-changed-readings") or o.startswith("calculate_index"):
-        return post != pre[0]
+        return not snap_eq(post, pre[0])
     if o.endswith("not-exactly-own-entries"):
         op = tuple(path[-1])
-        left = tuple(l for l in pre[2] if op[1] is not None and make(BY_LABEL[l]).name != op[1])
-        return post != twin_snapshot(left, raw, pre[3])
+        left = tuple(l for l in pre[2] if op[1] is not None and nm_(l) != op[1])
+        return not snap_eq(post, twin_snapshot(left, raw, pre[3]))
     if o == "append!=batch":
-        return post != twin_snapshot(st.reg, raw, st.pos)
+        return not snap_eq(post, twin_snapshot(st.reg, raw, st.pos))
     return True
 
 
@@ -354,7 +394,7 @@ def main(prop, tier):
     if prop == "C14":
         rule = ("breadth-first search from 3 initial states (empty, pre-loaded not calculated, calculated) over the menu {append 1|2, "
                 "calculate([name]), purge([name]), recalculate([name]), calculate_index([name], i in {-1,-2,n-1,n-2}) on clean states, "
-                "add_indicator, remove_indicator} to the depth bound for every indicator set; states deduplicated on the canonical full object "
+                "add_indicator (a fresh indicator, or re-adding the very object that was removed), remove_indicator} to the depth bound for every indicator set; states deduplicated on the canonical full object "
                 "graph; per-transition oracles and the convergence probe (fork, calculate(), compare with a fresh batch twin) in every state; "
                 "non-trivial = distinct canonical states reached by searches that got beyond their initial states")
     else:
